@@ -691,7 +691,8 @@ func (c *ctx) exploreChanInto(stp *chanStats, name string, maxDepth int, alphabe
 		st.perDepth = append(st.perDepth, len(frontier))
 		st.maxDepth = depth
 		lastLevel = time.Since(levelStart)
-		progress(fmt.Sprintf("channel depth %d: %d new states, %d transitions so far", depth, len(frontier), st.transitions))
+		*stp = st
+		progress(fmt.Sprintf("channel[%s] depth %d: %d new states, %d transitions so far", name, depth, len(frontier), st.transitions))
 		if len(frontier) > 0 && depth%3 == 0 {
 			h := frontier[len(frontier)/2]
 			ops := make([]int, len(h))
